@@ -348,6 +348,35 @@ def rule_every_element(S, res, phases, cs):
                     back = fg.backward(nodes, node_ok=lambda x: x[0] == c.bk, edge_ok=secmod.struct_edge)
                     if not any(x in comp for x in back):
                         continue
+                    # a container whose length the receive primitive validated (the per-party vector of a broadcast,
+                    # the outer vector of recv_vec_from) is not peer-sized
+                    from r1 import validated_types
+                    vt = set()
+                    for s_ in S.recv_sites:
+                        if l in (s_.label or []):
+                            vt |= validated_types(s_)[0]
+                    aty_n = aty.replace(", alloc::alloc::Global", "").lstrip("&")
+                    if aty_n.startswith("mut "):
+                        aty_n = aty_n[4:]
+                    if aty_n in vt or any(aty_n == "core::slice::iter::Iter<%s>" % v[len("alloc::vec::Vec<"):-1] for v in vt):
+                        continue
+                    # only containers whose element type occurs inside the message (below the validated level) can be
+                    # one of its peer-sized vectors: `Vec<bool>` / `Vec<Mac>` of `dvalue`, not a bucket of own shares
+                    full = nested.get(l, "").replace(", alloc::alloc::Global", "")
+                    import re as _re
+                    m_ = _re.search(r"Iter(?:Mut)?<(.*)>$", aty_n) if "slice::iter::Iter" in aty_n and not aty_n.startswith("core::iter::adapters") else None
+                    el = None
+                    if aty_n.startswith("alloc::vec::Vec<"):
+                        el = aty_n[len("alloc::vec::Vec<"):-1]
+                    elif aty_n.startswith("["):
+                        el = aty_n[1:-1]
+                    elif m_:
+                        el = m_.group(1)
+                    elif aty_n.startswith("core::iter::adapters"):
+                        m2 = _re.search(r"slice::iter::Iter(?:Mut)?<([^<>]*(?:<[^<>]*>)?[^<>]*)>", aty_n)
+                        el = m2.group(1) if m2 else None
+                    if el is not None and full and ("alloc::vec::Vec<%s>" % el) not in full:
+                        continue
                     # the zipped iterator feeds the loop that contains the check
                     lp = S.inner_loop(b, c.block)
                     if lp is None or not b.dominates(bi, lp[0]):
